@@ -168,6 +168,9 @@ LibWrap<T>: !record
 """
 
 
+LINKED = {"main-link": "main", "import-link": "lib", "version-link": "v0"}
+
+
 def build_tree(base: str, where: str, bad_defs: str, helpers: bool):
     """where in {main, main2, import, version}. Returns (pkgdir, file containing the violation)."""
     H = HELPERS if helpers else ""
@@ -191,6 +194,10 @@ def build_tree(base: str, where: str, bad_defs: str, helpers: bool):
     elif where == "version":
         files["v0/model.yml"] = VALID_MAIN + H + bad_defs
         bad_file = "v0/model.yml"
+    elif where in LINKED:
+        # the offending model file lives outside the package; the package directory holds a symbolic link to it
+        files["shared/zz_linked.yml"] = H + bad_defs
+        bad_file = LINKED[where] + "/zz_linked.yml"
     else:
         raise ValueError(where)
     # multi-document snippets (---) go to a second file so that YAML itself stays well formed
@@ -203,6 +210,8 @@ def build_tree(base: str, where: str, bad_defs: str, helpers: bool):
         else:
             out[k] = v
     common.write_tree(base, out)
+    if where in LINKED:
+        os.symlink(os.path.join("..", "shared", "zz_linked.yml"), os.path.join(base, bad_file))
     return os.path.join(base, "main"), os.path.join(base, bad_file), os.path.join(base, os.path.dirname(bad_file))
 
 
@@ -282,14 +291,16 @@ def run(ctx):
     ctx.extra["controls"] = controls
 
     jobs = []
-    for rid, named, ty, _ in TYPE_RULES:
+    for ri, (rid, named, ty, _) in enumerate(TYPE_RULES):
         if controls.get(rid) != "rejected":
             continue
         for pos in POSITIONS:
             if rid == "stream-outside-step" and pos == "step":
                 continue   # a stream *is* legal as the type of a protocol step
-            for where in wheres:
+            for where in wheres + (list(LINKED) if pos in ("field", "step") else []):
                 if quick and where == "main2" and pos not in ("field", "step"):
+                    continue
+                if quick and where in LINKED and (pos != "field" or ri % 3):
                     continue
                 jobs.append(("inject", rid, named, embed(pos, ty, "Inj"), True, pos, where))
     for rid, named, defs in DEF_RULES:
@@ -301,7 +312,7 @@ def run(ctx):
             continue
         if controls.get(rid) != "rejected":
             continue
-        for where in wheres:
+        for where in wheres + (["main-link"] if "\n---\n" not in defs else []):
             jobs.append(("inject", rid, named, defs, False, "def", where))
 
     for job, cdir, pkgdir, bad_file, bad_dir, res in pmap(run_case, jobs):
